@@ -1,78 +1,106 @@
 (** C04 — the parallel engine preserves time order and phase order.  Theorems only.
-    Every statement quantifies over every program, every number of queues >= 1,
-    every initial event list and EVERY scheduler oracle (goroutine interleaving). *)
+    Every statement quantifies over every handler program, every number of queues
+    >= 1, every initial event list, every well-formed script of an external
+    controller goroutine (Pause, Schedule at CurrentTime()+d ..., Continue — what a
+    monitor does) and EVERY scheduler oracle (goroutine interleaving). *)
 From Coq Require Import Permutation.
-From Akita Require Import Lib.Base Lib.Lts C04.Model C04.Proofs1 C04.Proofs2 C04.Proofs3.
+From Akita Require Import Lib.Base Lib.Lts C04.Model C04.Proofs1 C04.Proofs2 C04.Proofs2b C04.Proofs3 C04.Proofs4.
 Local Open Scope N_scope.
 
 (** Exactly once: at every moment scheduled = handled + live (spawned or executing
-    or queued), as multisets; when Run returns, handled = scheduled. *)
-Theorem c04_exactly_once : forall prog nq init o, (1 <= nq)%nat ->
-  let s := e_run prog o (e_init nq init) in
+    or queued), as multisets; when Run returns, handled = scheduled (unless the
+    controller scheduled something after Run had returned). *)
+Theorem c04_exactly_once : forall prog nq init script o, (1 <= nq)%nat -> cwf false script = true ->
+  let s := e_run prog o (e_init_ctl nq init script) in
   Permutation (e_sched s) (e_handled s ++ pending_ws (e_ws s) ++ queued s) /\
-  (e_pc s = EDone -> Permutation (e_handled s) (e_sched s)).
-Proof. intros prog nq init o H. exact (par_exactly_once prog nq init H o). Qed.
+  (e_pc s = EDone -> x_late (e_ext s) = false -> Permutation (e_handled s) (e_sched s)).
+Proof. intros prog nq init script o H Hc. exact (par_exactly_once prog nq init script H Hc o). Qed.
 Print Assumptions c04_exactly_once.
 
 (** Round times never decrease. *)
-Theorem c04_round_times_monotone : forall prog nq init o, (1 <= nq)%nat ->
-  let s := e_run prog o (e_init nq init) in
+Theorem c04_round_times_monotone : forall prog nq init script o, (1 <= nq)%nat -> cwf false script = true ->
+  let s := e_run prog o (e_init_ctl nq init script) in
   mono_from (e_now s) (e_rounds s) = true.
-Proof. intros prog nq init o H. exact (proj2 (proj2 (par_time_order prog nq init H o))). Qed.
+Proof. intros prog nq init script o H Hc. exact (proj2 (proj2 (par_time_order prog nq init script H Hc o))). Qed.
 Print Assumptions c04_round_times_monotone.
 
 (** No event starts while an event with an earlier time is unfinished, and the
     handlers executing together all have the same time and phase: the acceptor
     [par_trace_ok] accepts the label sequence of every execution.  The engine's
-    "event in the past" panics are unreachable. *)
-Theorem c04_no_overlap_across_times : forall prog nq init o, (1 <= nq)%nat ->
-  let s := e_run prog o (e_init nq init) in
+    "event in the past" panics and the mutex-misuse fault are unreachable. *)
+Theorem c04_no_overlap_across_times : forall prog nq init script o, (1 <= nq)%nat -> cwf false script = true ->
+  let s := e_run prog o (e_init_ctl nq init script) in
   par_trace_ok init (rev (e_trace s)) = true /\ e_panic s = false.
 Proof.
-  intros prog nq init o H s. destruct (par_time_order prog nq init H o) as [A [B _]]. auto.
+  intros prog nq init script o H Hc s. destruct (par_time_order prog nq init script H Hc o) as [A [B _]]. auto.
 Qed.
 Print Assumptions c04_no_overlap_across_times.
 
 (** State form: every spawned/executing handler has the round's time and phase and
     no queued event is earlier than the round. *)
-Theorem c04_barrier_state : forall prog nq init o, (1 <= nq)%nat ->
-  let s := e_run prog o (e_init nq init) in
+Theorem c04_barrier_state : forall prog nq init script o, (1 <= nq)%nat -> cwf false script = true ->
+  let s := e_run prog o (e_init_ctl nq init script) in
   Forall (fun w => ev_time (fst w) = e_now s /\ ev_sec (fst w) = e_sec s) (e_ws s) /\
   Forall (fun x => e_now s <= ev_time x) (queued s).
-Proof. intros prog nq init o H. exact (par_state_order prog nq init H o). Qed.
+Proof. intros prog nq init script o H Hc. exact (par_state_order prog nq init script H Hc o). Qed.
 Print Assumptions c04_barrier_state.
 
-(** A secondary round at t starts only when no handler is spawned or executing and
-    every queued primary is strictly later than t — including primaries that were
-    spawned by primaries at t (they ran in earlier primary rounds at t). *)
-Theorem c04_secondary_round_clean : forall prog nq init o s', (1 <= nq)%nat ->
-  let s := e_run prog o (e_init nq init) in
-  e_pc s = EDetermine -> step prog TE s = Some s' -> e_sec s' = true ->
-  e_ws s' = [] /\ Forall (fun x => e_now s' < ev_time x) (concat (e_pqs s')).
-Proof. intros prog nq init o s' H. exact (par_secondary_round_clean prog nq init H o s'). Qed.
+(** A secondary round at t is chosen (determineWhatToRun, with the pause lock held)
+    only when no handler is spawned or executing and every queued primary is
+    strictly later than t — including primaries spawned by primaries at t and
+    primaries injected by the controller while the engine was paused. *)
+Theorem c04_secondary_round_clean : forall prog nq init script o s', (1 <= nq)%nat -> cwf false script = true ->
+  let s := e_run prog o (e_init_ctl nq init script) in
+  e_pc s = EDetermine -> step prog false TE s = Some s' -> e_sec s' = true ->
+  e_ws s' = [] /\ Forall (fun x => e_now s' < ev_time x) (concat (e_pqs s')) /\ x_plock (e_ext s') = Some false.
+Proof. intros prog nq init script o s' H Hc. exact (par_secondary_round_clean prog nq init script H Hc o s'). Qed.
 Print Assumptions c04_secondary_round_clean.
+
+(** The phase guarantee over whole executions: whenever a secondary starts, every
+    scheduled-and-unfinished primary of its instant was scheduled by a secondary
+    handler of that very instant (the sibling corner below) — never by the
+    controller, never by a primary, never before the round.  Acceptor
+    [phase_guaranteed_ok] accepts every execution. *)
+Theorem c04_phase_guaranteed : forall prog nq init script o, (1 <= nq)%nat -> cwf false script = true ->
+  phase_guaranteed_ok init (rev (e_trace (e_run prog o (e_init_ctl nq init script)))) = true.
+Proof. intros prog nq init script o H Hc. exact (phase_guaranteed prog init nq script o H Hc). Qed.
+Print Assumptions c04_phase_guaranteed.
+
+(** With determineWhatToRun BEFORE pauseLock.Lock (the reordering) the guarantee is
+    lost: witness with a controller that pauses between the primary and the
+    secondary round of instant 10 and schedules a primary at CurrentTime(). *)
+Theorem c04_reordered_pause_refuted :
+  exists o, let s := run (step reo_prog true) o (e_init_ctl 1 reo_init reo_script) in
+  cwf false reo_script = true /\
+  rev (e_trace s) = [LStart (mk_ev 1 10 false); LEnd (mk_ev 1 10 false); LInject (mk_ev 9 10 false); LStart (mk_ev 2 10 true)] /\
+  phase_guaranteed_ok reo_init (rev (e_trace s)) = false.
+Proof. exists reo_oracle. destruct reordered_refuted as [A [B [_ D]]]. auto. Qed.
+Print Assumptions c04_reordered_pause_refuted.
 
 (** The literal phase clause ("no secondary starts before every primary of the
     instant, including primaries scheduled during the instant, has finished") is
-    FALSE: sibling secondaries of one round.  Witness interleaving on one queue pair. *)
+    FALSE of the code: sibling secondaries of one round.  Witness on one queue pair. *)
 Theorem c04_sibling_secondary_corner_refuted :
-  exists o, let s := e_run corner_prog o (e_init 1 corner_init) in
+  exists o, let s := e_run corner_prog o (e_init_ctl 1 corner_init []) in
   rev (e_trace s) = [LStart (mk_ev 1 10 true); LSched (mk_ev 1 10 true) (mk_ev 3 10 false); LStart (mk_ev 2 10 true)] /\
   phase_literal_ok corner_init (rev (e_trace s)) = false.
 Proof. exists corner_oracle. destruct corner_refuted as [A [B _]]. auto. Qed.
 Print Assumptions c04_sibling_secondary_corner_refuted.
 
-(** Non-vacuity: a same-instant chain primary -> (primary, secondary) -> ... runs to
-    completion under a round-robin oracle on 2 queue pairs; the acceptor accepts. *)
+(** Non-vacuity: a same-instant chain primary -> (primary, secondary) -> ... with a
+    controller that pauses, injects a primary and a secondary, and continues, runs to
+    completion under a round-robin oracle on 2 queue pairs; all acceptors accept. *)
 Definition nv_prog : program :=
   fun id => if id =? 1 then [(4, 0, false); (5, 0, true)] else if id =? 4 then [(6, 0, false); (7, 10, false)] else [].
 Definition nv_init : list ev := [mk_ev 1 5 false; mk_ev 2 5 true; mk_ev 3 5 false].
+Definition nv_script : list cop := [CPause; CSched 20 0 false; CSched 21 0 true; CContinue].
 Definition nv_oracle : list tid :=
-  concat (repeat ([TE; TE; TE] ++ flat_map (fun i => [TW i; TW i; TW i; TW i; TW i; TW i]) (seq 0 4)) 40).
+  concat (repeat ([TE; TE; TE; TC] ++ flat_map (fun i => [TW i; TW i; TW i; TW i; TW i; TW i]) (seq 0 4)) 60).
 
 Example c04_nonvacuous :
-  let s := e_run nv_prog nv_oracle (e_init 2 nv_init) in
-  e_pc s = EDone /\ length (e_handled s) = 7%nat /\
+  let s := e_run nv_prog nv_oracle (e_init_ctl 2 nv_init nv_script) in
+  cwf false nv_script = true /\
+  e_pc s = EDone /\ length (e_handled s) = 9%nat /\ x_script (e_ext s) = [] /\
   par_trace_ok nv_init (rev (e_trace s)) = true /\ phase_literal_ok nv_init (rev (e_trace s)) = true /\
-  rev (e_rounds s) = [(5, false); (5, false); (5, false); (5, true); (15, false)].
+  phase_guaranteed_ok nv_init (rev (e_trace s)) = true.
 Proof. vm_compute. repeat split; reflexivity. Qed.
